@@ -11,8 +11,8 @@ from hydrodiy.gis.grid import Grid, Catchment, voronoi
 PROPERTY = "C16"
 RULE = ("Hypothesis-generated fine flow grids 1x1..12x12 (cell size in "
         "{.25,.5,1,2}, origin on the quarter-cell lattice) with catchment "
-        "cell sets that are random subsets or areas delineated on acyclic "
-        "grids (filled and unfilled); coarse grids with cell-size ratio in "
+        "cell sets that are random subsets, areas delineated on acyclic "
+        "grids (filled and unfilled) or two catchments combined with + / -; coarse grids with cell-size ratio in "
         "{0.5,1,1.5,2,3,4}, 1..5 rows/cols and quarter-cell offsets so that fine "
         "centres fall inside, on edges and outside coarse cells, origins up to "
         "2^24 half cells from zero, grids with the shape and resolution of "
@@ -31,7 +31,8 @@ RULE = ("Hypothesis-generated fine flow grids 1x1..12x12 (cell size in "
 
 @st.composite
 def cases(draw, tier):
-    src = draw(st.sampled_from(["subset", "subset", "delineated"]))
+    src = draw(st.sampled_from(["subset", "subset", "delineated", "sum",
+                                "difference"]))
     gc = draw(G.random_grid(12, kinds=("forest", "forest", "majority")))
     nr, nc = gc["shape"]
     n = nr * nc
@@ -49,6 +50,17 @@ def cases(draw, tier):
         case["cells"] = sorted(draw(st.lists(st.integers(0, n - 1),
                                              min_size=1, max_size=n,
                                              unique=True)))
+    elif src in ("sum", "difference"):
+        # two catchments of the same flow direction grid combined with + / -
+        # (one of them often small, the other anywhere on the grid)
+        small = st.lists(st.integers(0, n - 1), min_size=1, max_size=3,
+                         unique=True)
+        anyset = st.lists(st.integers(0, n - 1), min_size=1, max_size=n,
+                          unique=True)
+        a, b = draw(small), draw(anyset)
+        if src == "difference" or draw(st.booleans()):
+            a, b = b, a
+        case["cells"], case["cells2"] = sorted(a), sorted(b)
     else:
         case["outlet"] = draw(st.integers(0, n - 1))
         # an interior sink leaves a hole in the area (filled area larger)
@@ -101,6 +113,15 @@ def setup(case):
         cells = np.array(case["cells"], dtype=np.int64)
         ca._idxcells_area = cells
         ca._idxcells_area_filled = cells
+    elif case["src"] in ("sum", "difference"):
+        cb = Catchment("d", fd)
+        for c_, key in ((ca, "cells"), (cb, "cells2")):
+            cells = np.array(case[key], dtype=np.int64)
+            c_._idxcells_area = cells
+            c_._idxcells_area_filled = cells
+        ca = ca + cb if case["src"] == "sum" else ca - cb
+        if len(ca.idxcells_area) == 0:
+            raise Skip()
     else:
         down = G.down_model(fda)
         n = nr * nc
